@@ -67,7 +67,9 @@ def parse (toks : List String) : Option (List Lbl) := do
         let u := arr[j]!
         if u.startsWith "PS" then
           batch := batch ++ [← (u.drop 2).toNat?]
-        else if u != "PP" then
+        else if u != "PP" && !u.startsWith "EX" then
+          -- (an EX token is put in by the harness where it reached its goals point; that can fall between the hook
+          --  events of a Publish call of a subscription that is not part of the goals – a consumer's nested Publish)
           stop := true
         j := j + 1
       out := out ++ [.PL batch]
@@ -92,5 +94,11 @@ def checkTopic (toks : List String) : String :=
     match r.rejectedAt with
     | some i => s!"reject@{i}"
     | none => "ok"
+
+/-! regression (sweep 4, C04 thorough seed 21): the goals point of the harness fell between `publish.persisted` and
+    `publish.sent` of a consumer's nested Publish -/
+#guard checkTopic ["SL", "SR", "SG0", "PL", "PP", "EX0:", "PS3", "UN0"] == "ok"
+#guard checkTopic ["SL", "SR", "SG0", "PL", "PP", "PS3", "EX0:3", "UN0"] == "ok"
+#guard checkTopic ["SL", "SR", "SG0", "PL", "PP", "PS3", "EX0:", "UN0"] != "ok"
 
 end Wm.GcTopicConf
